@@ -50,6 +50,8 @@ def run(ctx: Ctx):
     rules.rule_fold_threading(ctx, "D4", ai, 1)
     applied_only_on_success(ctx, ai)
     no_early_exit(ctx, ai)
+    # "at most one instruction takes effect per vehicle": the two passes of apply_instructions meet every instruction at most once
+    ctx.attempt(rules.rule_once_each, ctx, "D3", fam, {ai.params[2]}, "an instruction met twice is applied twice: its plug / stall / assignment is taken twice", "DU.once-each", 2)
     stack_ends(ctx)
     generation_order(ctx)
     step_phases(ctx)
